@@ -738,3 +738,120 @@ def fam_user(tier, seed):
 
 FAMILIES.update({"fields": fam_fields, "ws": fam_ws, "memo": fam_memo, "lr": fam_lr, "pos": fam_pos,
                  "uni": fam_uni, "inc": fam_inc, "user": fam_user})
+
+
+# ----------------------------------------------------------------------------- F-bad (C15)
+
+def fam_bad(tier, seed):
+    """for each documented restriction: violating grammars in varied contexts and their nearest
+    valid neighbours; include graphs; identifier spellings; derive sets.  meta.expect = code|error"""
+    rnd = random.Random(seed * 7919 + 15)
+    out = []
+    A = lambda: Rule("A", Lit("a"))  # noqa: E731
+    B = lambda: Rule("B", Lit("b"))  # noqa: E731
+
+    def mk(name, rules, expect, root=None, **meta):
+        m = {"shape": name, "expect": expect, "flags": "nocompile"}
+        m.update(meta)
+        g = Grammar("bad_%04d" % len(out), rules, root=root or rules[0].name, maxlen=0, meta=m)
+        g.alpha = ["a"]
+        out.append(g)
+
+    # R1 fields inside lookaheads
+    for la, ln in ((Neg, "neg"), (Pos, "pos")):
+        mk("R1_%s_field" % ln, [Rule("S", Seq(la(Call("A", "x")), Lit("a")), export=True), A()], "error")
+        mk("R1_%s_deep" % ln, [Rule("S", Seq(la(Seq(Lit("a"), Opt(Call("A", "x")))), Lit("a")), export=True), A()], "error")
+        mk("R1_%s_override" % ln, [Rule("R", Call("S", "s"), export=True), Rule("S", Seq(la(Call("A", "@")), Call("A", "@"))), A()], "error")
+        mk("R1_%s_via_include" % ln, [Rule("S", Seq(la(Inc("I")), Lit("a")), export=True), Rule("I", Call("A", "x")), A()], "error")
+        mk("R1_%s_in_clo" % ln, [Rule("S", Clo(Seq(la(Call("A", "x")), Call("char"))), export=True), A()], "error")
+        mk("R1_%s_ok_nofield" % ln, [Rule("S", Seq(la(Call("A")), Call("A", "x")), export=True), A()], "code")
+        mk("R1_%s_ok_include_nofield" % ln, [Rule("S", Seq(la(Inc("I")), Call("A", "x")), export=True), Rule("I", Call("A")), A()], "code")
+    # R2 mixing
+    mk("R2_mix_seq", [Rule("R", Call("S", "s"), export=True), Rule("S", Seq(Call("A", "@"), Call("B", "x"))), A(), B()], "error")
+    mk("R2_mix_choice", [Rule("R", Call("S", "s"), export=True), Rule("S", Choice(Call("A", "@"), Call("B", "x"))), A(), B()], "error")
+    mk("R2_mix_include", [Rule("R", Call("S", "s"), export=True), Rule("S", Seq(Call("A", "@"), Inc("I"))), Rule("I", Call("B", "x")), A(), B()], "error")
+    mk("R2_ok_override_plain", [Rule("R", Call("S", "s"), export=True), Rule("S", Seq(Call("A", "@"), Call("B"))), A(), B()], "code")
+    mk("R2_ok_string_ignores_fields", [Rule("R", Call("S", "s"), export=True),
+                                       Rule("S", Seq(Call("A", "@"), Call("B", "x")), string=True), A(), B()], "code")
+    # R3 multi-type override not exactly once
+    mk("R3_enum_in_opt", [Rule("R", Call("S", "s"), export=True), Rule("S", Choice(Opt(Call("A", "@")), Call("B", "@"))), A(), B()], "error")
+    mk("R3_enum_in_clo", [Rule("R", Call("S", "s"), export=True), Rule("S", Clo(Choice(Call("A", "@"), Call("B", "@")))), A(), B()], "error")
+    mk("R3_enum_missing_arm", [Rule("R", Call("S", "s"), export=True), Rule("S", Choice(Call("A", "@"), Call("B", "@"), Lit("x"))), A(), B()], "error")
+    mk("R3_enum_twice", [Rule("R", Call("S", "s"), export=True), Rule("S", Seq(Call("A", "@"), Call("B", "@"))), A(), B()], "error")
+    mk("R3_ok_enum", [Rule("R", Call("S", "s"), export=True), Rule("S", Choice(Call("A", "@"), Seq(Lit("x"), Call("B", "@")))), A(), B()], "code")
+    mk("R3_ok_single_type_opt", [Rule("R", Call("S", "s"), export=True), Rule("S", Choice(Call("A", "@"), Lit("x"))), A()], "code")
+    mk("R3_ok_single_type_clo", [Rule("R", Call("S", "s"), export=True), Rule("S", Clo(Call("A", "@"))), A()], "code")
+    # R4 / R5 plain override exported / positioned
+    mk("R4_export_plain_override", [Rule("S", Call("A", "@"), export=True), A()], "error")
+    mk("R5_position_plain_override", [Rule("R", Call("S", "s"), export=True), Rule("S", Call("A", "@"), position=True), A()], "error")
+    mk("R4_export_optional_override", [Rule("S", Opt(Call("A", "@")), export=True), A()], "error")
+    mk("R4_ok_export_enum", [Rule("S", Choice(Call("A", "@"), Call("B", "@")), export=True), A(), B()], "code")
+    mk("R5_ok_position_enum", [Rule("R", Call("S", "s"), export=True), Rule("S", Choice(Call("A", "@"), Call("B", "@")), position=True),
+                               Rule("A", Lit("a"), position=True), Rule("B", Lit("b"), position=True)], "code")
+    # R6 @string @export
+    mk("R6_string_export", [Rule("S", Lit("a"), export=True, string=True)], "error")
+    mk("R6_ok_string", [Rule("R", Call("S", "s"), export=True), Rule("S", Lit("a"), string=True)], "code")
+    # R7 skipping Whitespace
+    mk("R7_ws_skipping", [Rule("S", Lit("a"), export=True), Rule("Whitespace", Clo(Lit(" ")))], "error")
+    mk("R7_ok_ws_noskip", [Rule("S", Lit("a"), export=True), Rule("Whitespace", Clo(Lit(" ")), no_skip_ws=True)], "code")
+    # R8 @memoize without Clone, for several derive sets
+    for dn, dl in (("debug", ["Debug"]), ("none", []), ("dbg_clone", ["Debug", "Clone"]), ("clone", ["Clone"]),
+                   ("full", ["Debug", "Clone", "PartialEq", "Eq"])):
+        ok = "Clone" in dl
+        mk("R8_memoize_%s" % dn, [Rule("S", Call("A", "x"), export=True), Rule("A", Lit("a"), memoize=True)],
+           "code" if ok else "error", derives=",".join(dl) if dl else "", derives_list=dl)
+        mk("R8_plain_%s" % dn, [Rule("S", Call("A", "x"), export=True), A()], "code", derives=",".join(dl) if dl else "", derives_list=dl)
+    # R9 non-ASCII case-insensitive literals
+    mk("R9_ci_nonascii_char", [Rule("S", Lit("é", ci=True), export=True)], "error")
+    mk("R9_ci_nonascii_str", [Rule("S", Lit("aé", ci=True), export=True)], "error")
+    mk("R9_ci_in_included", [Rule("S", Inc("I"), export=True), Rule("I", Lit("ß", ci=True))], "error")
+    mk("R9_ok_ci_ascii", [Rule("S", Seq(Lit("aE", ci=True), Lit("é")), export=True)], "code")
+    # R10 invalid code points
+    for nm, cp, ok in (("surrogate_lo", 0xD800, False), ("surrogate_hi", 0xDFFF, False), ("above_max", 0x110000, False),
+                       ("below_surrogate", 0xD7FF, True), ("above_surrogate", 0xE000, True), ("max", 0x10FFFF, True)):
+        mk("R10_lit_%s" % nm, [Rule("S", Lit(None, cps=[97, cp]), export=True)], "code" if ok else "error")
+        mk("R10_range_%s" % nm, [Rule("S", Range("a", cp), export=True)], "code" if ok else "error")
+        mk("R10_charrule_%s" % nm, [Rule("S", Call("C", "c"), export=True), CharRule("C", [("lit", "a"), ("range", "b", cp)])],
+           "code" if ok else "error")
+    # R11 include targets
+    mk("R11_include_missing", [Rule("S", Seq(Inc("Nope"), Lit("a")), export=True)], "error")
+    mk("R11_include_char", [Rule("S", Inc("C"), export=True), CharRule("C", [("lit", "a")])], "error")
+    mk("R11_include_extern", [Rule("S", Inc("X"), export=True),
+                              ExternRule("X", {"o": "zero", "path": "crate::f", "nullable": True})], "error")
+    mk("R11_ok_include", [Rule("S", Seq(Inc("I"), Lit("a")), export=True), Rule("I", Call("A", "x")), A()], "code")
+    # R12 include graphs on three rules: edge i->j: rule i includes rule j
+    names = ["P", "Q", "R"]
+    graphs = list(itertools.product([0, 1], repeat=9))
+    if tier == "quick":
+        graphs = [g_ for g_ in graphs if sum(g_) <= 2] + sample(rnd, [g_ for g_ in graphs if sum(g_) > 2], 24)
+    for gr in graphs:
+        edges = [(i, j) for i in range(3) for j in range(3) if gr[i * 3 + j]]
+        rules = []
+        for i in range(3):
+            parts = [Lit("a")] + [Inc(names[j]) for (x, j) in edges if x == i]
+            rules.append(Rule(names[i], Seq(*parts), export=(i == 0)))
+        # cycle?
+        reach = {i: {j for (x, j) in edges if x == i} for i in range(3)}
+        ch = True
+        while ch:
+            ch = False
+            for i in range(3):
+                n = set(reach[i])
+                for j in list(reach[i]):
+                    n |= reach[j]
+                if n != reach[i]:
+                    reach[i] = n
+                    ch = True
+        cyc = any(i in reach[i] for i in range(3))
+        mk("R12_incgraph_%s" % "".join(map(str, gr)), rules, "error" if cyc else "code", answer_only=cyc)
+    # R12 identifier spellings: the compiler must answer (anything), never panic
+    for nm in ("self", "Self", "super", "crate", "1abc", "9"):
+        mk("R12_rule_named_%s" % nm, [Rule("S", Call(nm, "x"), export=True), Rule(nm, Lit("a"))], "error", badident=True, answer_only=True)
+        mk("R12_field_named_%s" % nm, [Rule("S", Call("A", nm), export=True), A()], "error", badident=True, answer_only=True)
+    for nm in ("type", "match", "fn", "Box", "async", "try", "dyn"):
+        mk("R12_ok_rule_named_%s" % nm, [Rule("S", Call(nm, "x"), export=True), Rule(nm, Lit("a"))], "code")
+        mk("R12_ok_field_named_%s" % nm, [Rule("S", Call("A", nm), export=True), A()], "code")
+    return out
+
+
+FAMILIES["bad"] = fam_bad
